@@ -682,6 +682,68 @@ theorem genLoop_length_ge (sum vb pps : Int) (spec : VestSpec) (hu : 0 < spec.qu
         have := ih _ _ rest (k - 1) (by omega) (targetAt_lt_sum hsum (by omega) hlt) (by omega) hr
         simp; omega
 
+/-- every entry is at least one step after the clock value it was generated from -/
+theorem genLoop_after (sum vb pps : Int) (spec : VestSpec) (hu : 0 < spec.quantization)
+    (hs : 0 ≤ spec.stepDuration) :
+    ∀ (fuel : Nat) (v ep : Int) (L : Table), genLoop sum vb pps spec fuel v ep = .ok L →
+      (∀ p ∈ L, ep + spec.stepDuration ≤ p.1) ∧ Sorted L := by
+  intro fuel
+  induction fuel with
+  | zero =>
+    intro v ep L h
+    have := ((genLoop_zero_ok ..).mp h).2
+    subst this
+    exact ⟨fun p hp => absurd hp (by simp), List.Pairwise.nil⟩
+  | succ fuel ih =>
+    intro v ep L h
+    cases (genLoop_succ_ok ..).mp h with
+    | inl h' =>
+      obtain ⟨_, hl⟩ := h'; subst hl
+      exact ⟨fun p hp => absurd hp (by simp), List.Pairwise.nil⟩
+    | inr h' =>
+      obtain ⟨_, _, _, rest, hr, hl⟩ := h'
+      subst hl
+      obtain ⟨i1, i2⟩ := ih _ _ rest hr
+      have q1 := quantizeUp_ge spec.quantization pps (ep + spec.stepDuration) hu
+      have q2 := quantizeUp_ge spec.quantization pps (ep + spec.stepDuration + spec.stepDuration) hu
+      have q3 := quantizeUp_mono spec.quantization pps (ep + spec.stepDuration)
+        (ep + spec.stepDuration + spec.stepDuration) hu (by omega)
+      constructor
+      · intro p hp
+        cases List.mem_cons.mp hp with
+        | inl hp => subst hp; simpa using q1
+        | inr hp => have := i1 p hp; omega
+      · apply List.pairwise_cons.mpr
+        refine ⟨?_, i2⟩
+        intro p hp
+        -- p is an entry of `rest`: it is the quantised value of a later clock value
+        have hge : ∀ (fuel : Nat) (v ep0 : Int) (L : Table),
+            genLoop sum vb pps spec fuel v ep0 = .ok L →
+            ∀ p ∈ L, quantizeUp spec.quantization pps (ep0 + spec.stepDuration) ≤ p.1 := by
+          intro fuel
+          induction fuel with
+          | zero =>
+            intro v ep0 L h p hp
+            have := ((genLoop_zero_ok ..).mp h).2
+            subst this; exact absurd hp (by simp)
+          | succ fuel ih2 =>
+            intro v ep0 L h p hp
+            cases (genLoop_succ_ok ..).mp h with
+            | inl h' => obtain ⟨_, hl⟩ := h'; subst hl; exact absurd hp (by simp)
+            | inr h' =>
+              obtain ⟨_, _, _, rest, hr, hl⟩ := h'
+              subst hl
+              cases List.mem_cons.mp hp with
+              | inl hp => subst hp; exact Int.le_refl _
+              | inr hp =>
+                have a := ih2 _ _ rest hr p hp
+                have b := quantizeUp_mono spec.quantization pps (ep0 + spec.stepDuration)
+                  (ep0 + spec.stepDuration + spec.stepDuration) hu (by omega)
+                omega
+        have := hge _ _ _ rest hr p hp
+        simp only
+        omega
+
 /-! ### the forced unlock -/
 
 /-- specification of "take `target` out of the table, earliest entries first": entries are
